@@ -236,3 +236,156 @@ pub fn rec_server(args: &Args) {
     let n = out.finish();
     println!("{}", json!({"events": n, "episodes": episodes}));
 }
+
+// ---- observe end to end (ObserveServer.tla) -------------------------------------------------------
+use coap_lite::{create_notification, MessageType, ObserveOption, RequestType, ResponseType, Subject};
+use std::collections::BTreeMap;
+
+struct ObsSrv {
+    subj: Subject<String>,
+    vers: BTreeMap<String, u64>,
+}
+
+fn oval(p: &str, ver: u64) -> Vec<u8> {
+    vec![(ver % 256) as u8, p.len() as u8]
+}
+
+fn ohandle(sv: &mut ObsSrv, ep: &str, dg: &[u8]) -> Option<Vec<u8>> {
+    let pkt = Packet::from_bytes(dg).ok()?;
+    let req = CoapRequest::from_packet(pkt, ep.to_string());
+    if req.message.header.get_type() == MessageType::Acknowledgement {
+        sv.subj.acknowledge(&req);
+        return None;
+    }
+    let mut resp = req.response.clone()?;
+    if *req.get_method() != RequestType::Get {
+        resp.set_status(ResponseType::MethodNotAllowed);
+        return resp.message.to_bytes_unlimited().ok();
+    }
+    let p = req.get_path();
+    let flag = req.get_observe_flag();
+    match flag {
+        Some(Ok(ObserveOption::Register)) => sv.subj.register(&req),
+        Some(Ok(ObserveOption::Deregister)) => sv.subj.deregister(&req),
+        _ => {}
+    }
+    resp.message.payload = oval(&p, *sv.vers.get(&p).unwrap_or(&0));
+    if let Some(Ok(ObserveOption::Register)) = flag {
+        let seq = sv.subj.get_resource(&p).map(|r| r.sequence).unwrap_or(0);
+        resp.message.set_observe_value(seq);
+    }
+    resp.message.to_bytes_unlimited().ok()
+}
+
+fn ochange(sv: &mut ObsSrv, p: &str, mid: u16, con: bool) -> Vec<(String, Vec<u8>)> {
+    let ver = sv.vers.entry(p.to_string()).or_insert(0);
+    *ver += 1;
+    let ver = *ver;
+    sv.subj.resource_changed(p, mid, con);
+    let seq = sv.subj.get_resource(p).map(|r| r.sequence).unwrap_or(0);
+    let mut out = vec![];
+    if let Some(obs) = sv.subj.get_resource_observers(p) {
+        for o in obs {
+            let n = create_notification(mid, o.token.clone(), seq, oval(p, ver), con);
+            out.push((o.endpoint.clone(), n.to_bytes_unlimited().unwrap_or_default()));
+        }
+    }
+    out
+}
+
+fn run_observe_steps(out: &mut Out, steps: &[Value]) {
+    out.ev(json!({"op": "reset"}));
+    let mut sv = ObsSrv { subj: Subject::default(), vers: BTreeMap::new() };
+    for st in steps {
+        match st["op"].as_str().unwrap() {
+            "limit" => {
+                sv.subj.set_unacknowledged_limit(st["n"].as_u64().unwrap() as u8);
+                out.ev(json!({"op": "limit", "n": st["n"]}));
+            }
+            "req" => {
+                let dg = vbytes(&st["dg"]);
+                let ep = st["ep"].as_str().unwrap();
+                let r = guarded(|| ohandle(&mut sv, ep, &dg));
+                let o = match &r { None => json!({"k": "panic"}), Some(None) => json!({"k": "none"}), Some(Some(b)) => json!({"k": "some", "bytes": jbytes(b)}) };
+                out.ev(json!({"op": "oreq", "ep": ep, "in": jbytes(&dg), "out": o}));
+            }
+            _ => {
+                let p = String::from_utf8(vbytes(&st["p"])).unwrap_or_default();
+                let mid = st["mid"].as_u64().unwrap() as u16;
+                let con = st["con"].as_bool().unwrap();
+                let r = guarded(|| ochange(&mut sv, &p, mid, con));
+                let o: Vec<Value> = r.as_ref().map(|v| v.iter().map(|(e, b)| json!({"ep": e, "dg": jbytes(b)})).collect()).unwrap_or_default();
+                out.ev(json!({"op": "change", "p": st["p"], "mid": mid, "con": con, "panicked": r.is_none(), "out": o}));
+            }
+        }
+    }
+}
+
+/// spec -> impl: behaviours of MC_ObserveServer
+pub fn rec_observe_script(args: &Args) {
+    let mut out = Out::create(args.s("out"));
+    let mut n = 0u64;
+    for v in read_vectors(args.s("in")) {
+        n += 1;
+        run_observe_steps(&mut out, v["steps"].as_array().unwrap());
+    }
+    let e = out.finish();
+    println!("{}", json!({"events": e, "scripts": n}));
+}
+
+/// impl -> spec: seeded random observe sessions over datagrams
+pub fn rec_observe_server(args: &Args) {
+    let seed = args.u("seed", 1);
+    let thorough = args.thorough();
+    let mut r = Rng::new(seed ^ 0x0B5);
+    let mut out = Out::create(args.s("out"));
+    let paths: [&[&str]; 4] = [&["t"], &["t", "u"], &["a", "b", "c"], &[]];
+    for _ in 0..(if thorough { 300 } else { 40 }) {
+        let mut steps: Vec<Value> = vec![json!({"op": "limit", "n": *r.pick(&[0u64, 1, 2, 10])})];
+        let mut mid = r.next() as u16;
+        let mut last_mids: Vec<u16> = vec![];
+        for _ in 0..r.range(10, 60) {
+            let ep = format!("c{}", r.below(3));
+            let segs = *r.pick(&paths);
+            match r.below(10) {
+                0 | 1 | 2 | 3 => {
+                    let mut p = Packet::new();
+                    p.header.set_type(num_type(r.below(2)));
+                    p.header.code = (*r.pick(&[1u8, 1, 1, 2])).into();
+                    p.header.message_id = r.next() as u16;
+                    let tl = r.below(9) as usize;
+                    p.set_token(r.bytes(tl));
+                    match r.below(5) {
+                        0 | 1 | 2 => p.add_option(CoapOption::Observe, vec![]),
+                        3 => p.add_option(CoapOption::Observe, vec![1]),
+                        _ => {}
+                    }
+                    if r.chance(1, 12) {
+                        p.clear_option(CoapOption::Observe);
+                        p.add_option(CoapOption::Observe, vec![9, 9]);
+                    }
+                    for s in segs {
+                        p.add_option(CoapOption::UriPath, s.as_bytes().to_vec());
+                    }
+                    steps.push(json!({"op": "req", "ep": ep, "dg": jbytes(&p.to_bytes_unlimited().unwrap())}));
+                }
+                4 | 5 | 6 | 7 => {
+                    mid = mid.wrapping_add(1);
+                    last_mids.push(mid);
+                    steps.push(json!({"op": "change", "p": jbytes(segs.join("/").as_bytes()), "mid": mid, "con": r.chance(2, 3)}));
+                }
+                _ => {
+                    let m = if !last_mids.is_empty() && r.chance(3, 4) { *r.pick(&last_mids[last_mids.len().saturating_sub(3)..]) } else { r.next() as u16 };
+                    let mut p = Packet::new();
+                    p.header.set_type(MessageType::Acknowledgement);
+                    p.header.code = 0u8.into();
+                    p.header.message_id = m;
+                    steps.push(json!({"op": "req", "ep": ep, "dg": jbytes(&p.to_bytes_unlimited().unwrap())}));
+                }
+            }
+        }
+        run_observe_steps(&mut out, &steps);
+    }
+    let n = out.finish();
+    println!("{}", json!({"events": n}));
+}
